@@ -57,6 +57,9 @@ let () =
             else "=false parsed: " ^ (match parse_stmt (stmt_of_block (explode (unesc blk))) with
                                       | Some (r, e) -> string_of_int (int_of_nat r) ^ " " ^ show e
                                       | None -> "no parse of " ^ implode (stmt_of_block (explode (unesc blk)))) ^ " expected: " ^ show (s_regroup t)
+        | ["E"; names; width; eq] -> (match equation_block (strs names) (nat_of_int (int_of_string width)) (explode eq) with
+                                      | Some b -> "=" ^ implode b | None -> "!KeyError")
+        | ["F"; name; width; nums] -> "=" ^ implode (array_def_block (nat_of_int (int_of_string width)) (List.map nat_of_int (ints nums)) (explode name))
         | ["I"; k] -> "=" ^ implode (idx_text (z_of_int (int_of_string k)))
         | ["T"; num; k] -> "=" ^ implode (term_f (nat_of_int (int_of_string num)) (idx_text (z_of_int (int_of_string k))))
         | ["U"; num; k] -> "=" ^ implode (explode "solved_values(" @ explode num @ explode ", " @ f_idx_text (z_of_int (int_of_string k)) @ explode ")")
